@@ -161,6 +161,7 @@ type SrvFid struct {
 	sync.Mutex
 	fid       uint32
 	refcount  int
+	creating  bool        // True while the Tattach, Tauth or Twalk creating the fid is unanswered
 	opened    bool        // True if the SrvFid is opened
 	Fconn     *Conn       // Connection the SrvFid belongs to
 	Omode     uint8       // Open mode (O* flags), if the fid is opened
@@ -478,7 +479,15 @@ func (conn *Conn) FidGet(fidno uint32) *SrvFid {
 	fid, present := conn.fidpool[fidno]
 	conn.Unlock()
 	if present {
-		fid.IncRef()
+		fid.Lock()
+		if fid.creating {
+			/* still being created by an unanswered request: the implementation
+			   has not set it up yet, so other requests must not see it */
+			fid.Unlock()
+			return nil
+		}
+		fid.refcount++
+		fid.Unlock()
 	}
 
 	return fid
@@ -498,6 +507,7 @@ func (conn *Conn) FidNew(fidno uint32) *SrvFid {
 	fid := new(SrvFid)
 	fid.fid = fidno
 	fid.refcount = 1
+	fid.creating = true
 	fid.Fconn = conn
 	conn.fidpool[fidno] = fid
 	conn.Unlock()
@@ -507,6 +517,15 @@ func (conn *Conn) FidNew(fidno uint32) *SrvFid {
 
 func (conn *Conn) String() string {
 	return conn.Srv.Id + "/" + conn.Id
+}
+
+// Keeps a fid created by a request beyond that request and makes it
+// visible to other requests.
+func (fid *SrvFid) retain() {
+	fid.Lock()
+	fid.refcount++
+	fid.creating = false
+	fid.Unlock()
 }
 
 // Increase the reference count for the fid.
